@@ -940,8 +940,43 @@ async fn scripted_finish(peer: &mut ScriptedPeer, cookie: &str) -> bool {
     false
 }
 
+/// what an honest dialling peer does: name, then follow the server's status (continue / answer an `alive`
+/// with "yes, go on" / give up and let the caller close), then the challenge exchange
+async fn honest_dial(peer: &mut ScriptedPeer, name: &str, id: u64, cookie: &str) -> &'static str {
+    scripted_name(peer, name, id).await;
+    let Some(m) = peer.recv().await else { return "closed-by-node" };
+    let status = match m.message {
+        Some(proto::meta::network_message::Message::Auth(a)) => match a.msg {
+            Some(pa::authentication_message::Msg::ServerStatus(s)) => s.status,
+            _ => -1,
+        },
+        _ => -1,
+    };
+    match status {
+        0 | 1 => {
+            if scripted_finish(peer, cookie).await {
+                "acknowledged"
+            } else {
+                "no-ack"
+            }
+        }
+        4 => {
+            let _ = peer.send(&auth_msg(pa::authentication_message::Msg::ClientStatus(pa::ClientStatus { status: true }))).await;
+            if scripted_finish(peer, cookie).await {
+                "acknowledged"
+            } else {
+                "no-ack-after-alive"
+            }
+        }
+        _ => "refused",
+    }
+}
+
 #[derive(Clone, Copy, Debug, PartialEq, Eq)]
 pub enum Scripted {
+    /// the honest peer dials, the link becomes ready, and it dials again with another connection id (lower or
+    /// higher than the first); whoever loses, the losing connection must end up closed
+    RedialAfterReady(u64, u64),
     /// `n` stalled connections claim the honest peer's name AND connection id; then the honest peer dials
     SameNonceSquatters(usize),
     /// an honest legacy peer (connection id 0) dials twice; the first dial finishes its handshake last
@@ -985,6 +1020,37 @@ fn c18_scripted_body(kind: Scripted) -> vsched::Body {
                 }
                 stalled.push(h);
                 honest_pipes = vec!["pipe-honest"];
+            }
+            Scripted::RedialAfterReady(id1, id2) => {
+                // (the node's listener is a child of the node server as well)
+                let fixtures: Vec<ractor::ActorId> = node.server.get_children().iter().map(|k| k.get_id()).collect();
+                let mut first = open("pipe-first");
+                let r1 = honest_dial(&mut first, "b@host", id1, COOKIE).await;
+                if r1 != "acknowledged" {
+                    bad.push(format!("the first dial ended as {r1}"));
+                }
+                let _ = first.send(&frame_for(Sym::Ready, 0).unwrap()).await;
+                vsched::quiesce_time();
+                let mut second = open("pipe-second");
+                let r2 = honest_dial(&mut second, "b@host", id2, COOKIE).await;
+                if r2 == "acknowledged" {
+                    let _ = second.send(&frame_for(Sym::Ready, 0).unwrap()).await;
+                    stalled.push(second);
+                } else {
+                    // refused (or left without an answer): an honest peer hangs up
+                    second.close().await;
+                }
+                vsched::quiesce_time();
+                // every connection but one is closed by now: exactly one session actor is still running
+                let running: Vec<String> = node.server.get_children().iter().filter(|k| !fixtures.contains(&k.get_id()) && k.get_status() == ActorStatus::Running).map(|k| k.get_id().to_string()).collect();
+                if running.len() != 1 {
+                    bad.push(format!("after a redial (first id {id1}, second id {id2}, second dial {r2}) {} session actors are still running ({running:?}), expected exactly one: the losing connection must be closed", running.len()));
+                }
+                if r2 == "no-ack-after-alive" || r2 == "no-ack" {
+                    bad.push(format!("the second dial was told to go on but never received a challenge / acknowledgement ({r2})"));
+                }
+                stalled.push(first);
+                honest_pipes = vec!["pipe-first", "pipe-second"];
             }
             Scripted::LegacyTwoDialsInOrder | Scripted::RepeatedIdTwoDialsInOrder => {
                 let id = if kind == Scripted::LegacyTwoDialsInOrder { 0 } else { 9 };
@@ -1118,6 +1184,10 @@ pub fn c18_units(thorough: bool) -> Vec<Unit> {
         Scripted::LegacyTwoDialsInOrder,
         Scripted::RepeatedIdTwoDialsInOrder,
         Scripted::LegacyThreeDials,
+        Scripted::RedialAfterReady(5, 9),
+        Scripted::RedialAfterReady(9, 5),
+        Scripted::RedialAfterReady(0, 5),
+        Scripted::RedialAfterReady(5, 0),
     ] {
         for seed in if thorough { (1u64..=8).collect::<Vec<_>>() } else { vec![1u64, 2, 3, 4] } {
             let mut c = cfg.clone();
